@@ -113,6 +113,14 @@ CHECKS = {
         note="The monitor is an enumeration, not a solver decision (labelled `other`); 'all strings' beyond single-token edits of family programs is outside; hang detection is a 5 s watchdog.",
         design="DESIGN.md §5 C15",
     ),
+    "C08": dict(
+        engine="gapsym+rxsmt",
+        category=MC,
+        technique="the real parsimonious grammar and visitor executed on text with symbolic layout choice points (lazy forking only where a match result depends on the choice), z3-checked partition of the layout space, outcomes taken from the unpatched convert(), one-choice-at-a-time concrete sweep for visitor-level text dependence; z3 regex lemmas over the real content terminals",
+        text="~360 skeletons (one per statement form and device statement, also followed by other text and inside IF arms, multi-line programs, literals with inner blanks) are parsed once over ALL their layouts: 0-2 blanks at every token boundary (>= 1 between alphanumeric tokens, 0 allowed between a number and a keyword), PRINT or ?, LF / CR / CRLF / blank-line line ends, optional final line end and trailing NUL. Three parsimonious primitives are patched; sequences, ordered choice, look-ahead, the packrat cache and every visit_* are the real code. z3 proves that the explored paths partition the layout space (up to 10^12 layouts per skeleton); every path's representative layout and every alternative of every choice point the parse did not depend on (one at a time) go through the unpatched convert() and must give the same bytes. z3 decides over the real comment_text / str_literal / partial_str_lit / data_str_literal regexes that none can match across CR or LF.",
+        note="Blank runs up to 2; tabs, blanks inside content and simultaneous visitor-level effects of two gaps are outside. gapsym is cross-checked against brute force on three skeletons at every run; a disagreement with the real parser is a harness error, never a violation.",
+        design="DESIGN.md §3 E4, §5 C08",
+    ),
     "C09": dict(
         engine="rxsmt+symproxy",
         category=OT,
